@@ -103,6 +103,35 @@ Proof.
     + intros rest. cbn [length dec_items]. rewrite <- app_assoc, Hd. cbn [bind]. rewrite Hdb. reflexivity.
 Qed.
 
+(* ---- the binary-count item loop equals the unary one ---- *)
+Lemma dec_items_add {A} (d : bytes -> res (A * bytes)) n m bs :
+  dec_items d (n + m) bs = do (xs, r) <- dec_items d n bs; do (ys, r') <- dec_items d m r; Ok (xs ++ ys, r').
+Proof.
+  revert bs. induction n as [|n IH]; intros bs; cbn [Nat.add dec_items bind].
+  - destruct (dec_items d m bs) as [[ys r']| | |]; reflexivity.
+  - destruct (d bs) as [[x r0]| | |]; cbn [bind]; try reflexivity.
+    rewrite IH. destruct (dec_items d n r0) as [[xs r]| | |]; cbn [bind]; try reflexivity.
+    destruct (dec_items d m r) as [[ys r']| | |]; reflexivity.
+Qed.
+
+Lemma dec_pos_spec {A} (d : bytes -> res (A * bytes)) p : forall bs,
+  dec_pos d p bs = dec_items d (Pos.to_nat p) bs.
+Proof.
+  induction p as [q IH|q IH|]; intros bs; cbn [dec_pos].
+  - rewrite Pos2Nat.inj_xI. cbn [dec_items]. destruct (d bs) as [[x r0]| | |]; cbn [bind]; try reflexivity.
+    replace (2 * Pos.to_nat q)%nat with (Pos.to_nat q + Pos.to_nat q)%nat by lia.
+    rewrite dec_items_add, <- IH. destruct (dec_pos d q r0) as [[xs r]| | |]; cbn [bind]; try reflexivity.
+    rewrite <- IH. destruct (dec_pos d q r) as [[ys r']| | |]; reflexivity.
+  - rewrite Pos2Nat.inj_xO. replace (2 * Pos.to_nat q)%nat with (Pos.to_nat q + Pos.to_nat q)%nat by lia.
+    rewrite dec_items_add, <- IH. destruct (dec_pos d q bs) as [[xs r]| | |]; cbn [bind]; try reflexivity.
+    rewrite <- IH. reflexivity.
+  - change (Pos.to_nat 1) with 1%nat. cbn [dec_items]. destruct (d bs) as [[x r]| | |]; reflexivity.
+Qed.
+
+Lemma dec_count_spec {A} (d : bytes -> res (A * bytes)) n bs :
+  dec_count d n bs = dec_items d (N.to_nat n) bs.
+Proof. destruct n as [|p]; [reflexivity|]. cbn [dec_count N.to_nat]. apply dec_pos_spec. Qed.
+
 Lemma len_ok_spec c n : len_ok c n = true -> n <= max_alloc c /\ n < 2 ^ 63.
 Proof. unfold len_ok. intros H. apply andb_true_iff in H as [H1 H2]. apply N.leb_le in H1. apply N.ltb_lt in H2. split; assumption. Qed.
 
@@ -147,7 +176,7 @@ Proof.
   cbn [dec_blocks]. rewrite seq_len_pos by assumption. cbn [bind].
   assert (E0 : (lenN l =? 0) = false) by (apply N.eqb_neq; lia). rewrite E0.
   rewrite N.add_0_l, Hs.
-  unfold lenN at 1. rewrite Nat2N.id. rewrite Hd. cbn [bind].
+  rewrite dec_count_spec. unfold lenN at 1. rewrite Nat2N.id. rewrite Hd. cbn [bind].
   cbn [app]. rewrite seq_len_zero. cbn [bind]. rewrite N.eqb_refl. cbn [bind].
   rewrite app_nil_r. reflexivity.
 Qed.
